@@ -35,9 +35,9 @@ def noteRule : P Str := do
   clit "note:"
   cut (do skipNl; stringLiteral)
 
-/-- `note_object = CaselessLiteral('note') + _ - '{' + _ - string_literal('text') + _ - '}'` -/
+/-- `note_object = CaselessKeyword('note') + _ - '{' + _ - string_literal('text') + _ - '}'` -/
 def noteObject : P Str := do
-  clit "note"
+  ckw "note"
   skipNl
   cut (do
     sym "{"
@@ -128,9 +128,9 @@ def colName : P (Option Str × Str × Str) :=
       let f ← name
       pure (none, t, f))
 
-/-- `ref_inline = Literal("ref:") - relation('type') - col_name` -/
+/-- `ref_inline = CaselessLiteral("ref:") - relation('type') - col_name` -/
 def refInline : P RefBp := do
-  sym "ref:"
+  clit "ref:"
   cut (do
     let k ← relation
     let (s, t, f) ← colName
@@ -501,10 +501,10 @@ def indexesRule : P (List IdxBp) := do
 
 /-! ### table.py -/
 
-/-- `alias = WordStart() + Literal('as').suppress() - WordEnd() - name` -/
+/-- `alias = WordStart() + CaselessLiteral('as').suppress() - WordEnd() - name` -/
 def aliasRule : P Str := do
   wordStart
-  sym "as"
+  clit "as"
   cut (do wordEnd; name)
 
 def headerColor : P Str := do
@@ -552,7 +552,7 @@ def tableName : P (Option Str × Str) :=
 /-- `table[_with_properties]` and `parse_table` -/
 def tableRule (props : Bool) : P TableBp := do
   let before ← cBefore
-  clit "table"
+  ckw "table"
   let (schema, nm) ← tableName
   let al ← opt aliasRule
   let st ← opt tableSettings
@@ -615,6 +615,7 @@ def enumRule : P EnumBp := do
     sym "{"
     let items ← many1 enumItem
     lineEnd
+    skipNl
     sym "}"
     endRule
     pure { name := nm, items := items, schema := schema.getD (PyDBML.lit "public"),
